@@ -434,6 +434,11 @@ def threeBad : List (List Char) := ["(a ".toList, "[b ".toList, ")".toList]
 example : (PSt.fresh.parseBy (fuelFor threeBad) .resetAdd threeBad).1.trace = [.more, .more] ∧
     (parseChunks threeBad).status = .err := by decide +kernel
 
+/-- the hypothesis of `stepwise_is_run_until_done` holds for it, and the theorem gives the error -/
+example : (PSt.fresh.parseBy (fuelFor threeBad) .resetAdd threeBad).1.status = .err := by
+  rw [(stepwise_is_run_until_done PSt.fresh threeBad (by decide +kernel)).1]
+  decide +kernel
+
 /-- … and the same after any history, by any reset route (`protocol_reset_forgets`) -/
 theorem stepwise_is_run_after_history (p : PSt) (r : Route) (hr : r.isReset = true)
     (hr' : r ≠ .resetAddLexerFirst ∧ r ≠ .resetNewLexerFirst) (cs : List (List Char)) (F : Nat)
